@@ -13,6 +13,7 @@
 #define SL_4B		256	/* U+1F600, 4 bytes */
 #define SL_WBELL	1024	/* U+9FCD: listed both as double-width and as nonprintable: drawn as a one-cell placeholder */
 #define SL_2BU		512	/* U+00C9, upper-case partner of U+00E9 (no ASCII folding applies) */
+#define SL_CYR		2048	/* U+0434 CYRILLIC DE: lead byte d0, whose payload is zero */
 
 static int sl_in(unsigned char c, const char *set)
 {
@@ -36,7 +37,7 @@ static int sl_copy(char *d, const char *s)
 static int slot_gen(char *d, const char *name, unsigned mask, const char *ascii)
 {
 	unsigned k = symx_u8(name);
-	symx_assume(k < 11 && ((mask >> k) & 1));
+	symx_assume(k < 12 && ((mask >> k) & 1));
 	if (k == 0) {
 		unsigned char b = symx_u8(name);
 		if (ascii)
@@ -55,6 +56,7 @@ static int slot_gen(char *d, const char *name, unsigned mask, const char *ascii)
 	if (k == 7) return sl_copy(d, "\xe2\x80\x8c");
 	if (k == 8) return sl_copy(d, "\xf0\x9f\x98\x80");
 	if (k == 10) return sl_copy(d, "\xe9\xbf\x8d");
+	if (k == 11) return sl_copy(d, "\xd0\xb4");
 	return sl_copy(d, "\xc3\x89");
 }
 
